@@ -49,6 +49,18 @@ def scenarios(tier, seed):
                                 out.append({"sim": sim, "n": n, "edges": edges, "weights": w, "tau": tau, "gamma": gamma,
                                             "p": {0.0: 0.0, 1.0: 0.5, 2.0: 1.0}[tau], "tmin": tmin, "tmax": tmax,
                                             "init_kw": ik, "weighted": bool(weighted), "tiny": weighted == "tiny", "seed": s * 7919 + gi})
+    # long runs: tens of thousands of events on one set of candidate lists / one event queue (bookkeeping that goes wrong
+    # only every so many operations, drift of running totals)
+    n = 12
+    edges = [(u, v) for u in range(1, n + 1) for v in range(u + 1, n + 1) if (u + v) % 3 != 0]
+    for sim in ("Gillespie_SIS", "fast_SIS"):
+        for weighted in (False, True):
+            w = None
+            if weighted:
+                w = {"g": [0.7 + 0.1 * (u % 4) for u in range(n)], "w": [0.3 + 0.1 * (i % 5) for i in range(len(edges))]}
+            out.append({"sim": sim, "n": n, "edges": edges, "weights": w, "tau": 1.0, "gamma": 1.0, "p": 0.5, "tmin": 0,
+                        "tmax": 400 if tier == "quick" else 4000, "init_kw": {"initial_infecteds": [1, 2, 3]}, "weighted": weighted,
+                        "long": True, "seed": 99 + (1 if weighted else 0)})
     # generic simulators: any user model, the legal moves are the model's own edges
     from harness import contagion
     mrng = pyrandom.Random(seed + 404)
@@ -339,6 +351,8 @@ def _cls(sc):
         c.append("finite-tmax")
     if sc.get("tiny"):
         c.append("tiny-weights")
+    if sc.get("long"):
+        c.append("long-run")
     return "+".join(c) or "plain"
 
 
